@@ -19,4 +19,11 @@ PROPS = {
         "trusted_base": COMMON_TB + ["time.Time.After modelled as integer comparison of instants; Go's sort package"],
         "assumptions": ["instants carry no monotonic clock reading (true for decoded and constructed values)"],
     },
+    "C14": {
+        "level_text": "Lean 4 theorems over byte strings: IRI.Equals is reflexive and symmetric for ALL strings and every URL parser returning queries as maps (in particular the executable splitter, proved well-formed); on parsed absolute URLs the comparison is exactly key equality (scheme when asked, host+port, cleaned path with empty = root, query multimap, ASCII case folded), key equality is reflexive/symmetric/transitive, and Equals coincides with it wherever the textual fast path is sound (hypothesis hfast, discharged only empirically - exhaustively on the URL grid - hence that theorem is conditional); Clean ignores trailing slash, '.', 'seg/..'; IRIs.Contains <-> exists equal member. Two repaired defects are kept as kernel-decided witnesses on the pinned model.",
+        "level_note": "Trusted: Lean kernel (propext, Quot.sound, Classical.choice via Batteries), Go harness + independent key oracle. Modelled, not verified: net/url.Parse (a splitter for the grid grammar answers 'outside' elsewhere and those cases are skipped and counted), filepath.Clean (re-implemented), strings.EqualFold beyond ASCII. hfast of C14_char is checked by testing, not proved.",
+        "technique": "Lean 4 proof over byte-string model (induction on lists, permutation/pigeonhole lemmas), kernel-decided witnesses; correspondence by exhaustive grid + random differential testing",
+        "trusted_base": COMMON_TB + ["net/url.Parse and URL.Query modelled by a grammar-restricted splitter", "path/filepath.Clean re-implemented in the model", "strings.EqualFold modelled on ASCII"],
+        "assumptions": ["query strings in one letter case (as the property's quantifier says)", "case variants are ASCII"],
+    },
 }
